@@ -373,6 +373,42 @@ HOSTILE = [
 ]  # fmt: skip
 
 
+_CHILD_OPT = r"""
+import json, sys
+import pint
+from fractions import Fraction
+out = {}
+for rname, reg in (("float", pint.UnitRegistry()), ("fraction", pint.UnitRegistry(non_int_type=Fraction))):
+    for text in ["2 +", "2 -", "(2 -) m", "3 *", "4 /", "2 **", "* 3", "2 + (", "m /", "(3 +) / 2", "-", "2 m **", "2 // "]:
+        for name, fn in (("parse_expression", reg.parse_expression), ("parse_units", reg.parse_units), ("Quantity", reg.Quantity)):
+            try:
+                r = fn(text)
+                out[f"{rname}:{name}:{text}"] = "value:" + str(r)
+            except Exception as ex:
+                out[f"{rname}:{name}:{text}"] = "raises:" + type(ex).__name__
+print(json.dumps(out, sort_keys=True))
+"""
+
+
+def h_dangling_operators_optimised(eng):
+    """a dangling operator never yields a value -- also when Python runs with -O, which strips
+    assert statements (child interpreters, with and without -O, must both refuse)"""
+    import json
+    import os
+    import subprocess
+    import sys
+
+    for flag in ("", "-O", "-OO"):
+        cmd = [sys.executable] + ([flag] if flag else []) + ["-c", _CHILD_OPT]
+        r = subprocess.run(cmd, capture_output=True, text=True, env=dict(os.environ, PYTHONPATH="/repo"), cwd="/tmp", timeout=600)
+        if r.returncode != 0:
+            eng.fail(f"dangling-operator:python{flag or '-default'}:child-failed", stop=False)
+            continue
+        res = json.loads(r.stdout.strip().splitlines()[-1])
+        for key, outcome in sorted(res.items()):
+            eng.prove(outcome.startswith("raises:"), f"dangling-operator:python{flag or '-default'}:{key}:{outcome[:40]}")
+
+
 def h_no_execution(eng):
     """no input string makes the parser call an operand, index it, look up an attribute named in
     the string, or touch the file system: it only does arithmetic and registry look-ups"""
@@ -525,6 +561,7 @@ def cases(tier, seed):
     for i in range(0, len(seqs), 400):
         out.append(Case("H07.d", f"{i:06d}", M, "h_ill_formed", {"seqs": seqs[i : i + 400]}, validate=0, weight=3.0))
     out.append(Case("H07.e", "no-execution", M, "h_no_execution", {}, kind="conc"))
+    out.append(Case("H07.d", "dangling-operators-under-python-O", M, "h_dangling_operators_optimised", {}, kind="conc"))
     out.append(Case("H07.c", "preprocessors", M, "h_preprocessors", {}, validate=1))
     out.append(Case("H07.obs", "observed", "pvlib.harness.observed", "h_c07", {}, kind="conc"))
     return out
